@@ -173,32 +173,67 @@ theorem sched_pending_mono (w : World) (a s : Nat) (sig t pri : Int) (e : HTag) 
       simp [KPQ.insert, he]
   · simpa using he
 
-/-- a predicate that survives the three kinds of elementary steps of a guard signal survives the signal -/
-theorem guardSignal_inv (P : World → Prop)
+/-- a predicate that survives the elementary steps of a condition signal survives it -/
+theorem condSignal_inv (P : World → Prop)
     (hfail : ∀ w m, P w → P (World.fail w m))
     (hq : ∀ w g q, P w → P (setGuardQ w g q))
-    (hs : ∀ w s t pri, P w → P (sched w aRes s sigSuccess t pri).1) :
-    ∀ fuel w g, P w → P (guardSignal fuel w g) := by
+    (hc : ∀ w s t pri, P w → P (sched w aCond s sigSuccess t pri).1) :
+    ∀ w g, P w → P (condSignal w g).1 := by
+  intro w g h
+  unfold condSignal
+  split
+  · exact h
+  · split
+    · exact h
+    · dsimp only
+      apply foldl_inv P
+      · intro w t hw
+        unfold guardRemove
+        repeat' split
+        all_goals first
+          | exact hw
+          | exact hq _ _ _ hw
+          | exact hfail _ _ hw
+      · exact foldl_inv P _ (fun w t hw => hc _ _ _ _ hw) _ _ h
+
+/-- a predicate that survives the kinds of elementary steps of a guard signal (own front step, or the condition signal
+    of an observing condition) survives the signal -/
+theorem guardSignalF_inv (P : World → Prop)
+    (hfail : ∀ w m, P w → P (World.fail w m))
+    (hq : ∀ w g q, P w → P (setGuardQ w g q))
+    (hs : ∀ w s t pri, P w → P (sched w aRes s sigSuccess t pri).1)
+    (hc : ∀ w s t pri, P w → P (sched w aCond s sigSuccess t pri).1) :
+    ∀ fuel fwd w g, P w → P (guardSignalF fwd fuel w g) := by
   intro fuel
   induction fuel with
-  | zero => intro w g h; exact hfail _ _ h
+  | zero => intro fwd w g h; exact hfail _ _ h
   | succ n ih =>
-    intro w g h
-    unfold guardSignal
+    intro fwd w g h
+    unfold guardSignalF
     split
     · exact h
-    · apply foldl_inv P _ (fun w a hw => ih w a hw)
+    · apply foldl_inv P _ (fun w a hw => ih true w a hw)
       dsimp only
       repeat' split
       all_goals first
         | exact h
         | exact hfail _ _ h
         | exact hs _ _ _ _ (hq _ _ _ h)
+        | exact condSignal_inv P hfail hq hc _ _ h
+
+theorem guardSignal_inv (P : World → Prop)
+    (hfail : ∀ w m, P w → P (World.fail w m))
+    (hq : ∀ w g q, P w → P (setGuardQ w g q))
+    (hs : ∀ w s t pri, P w → P (sched w aRes s sigSuccess t pri).1)
+    (hc : ∀ w s t pri, P w → P (sched w aCond s sigSuccess t pri).1) :
+    ∀ fuel w g, P w → P (guardSignal fuel w g) :=
+  fun fuel w g h => guardSignalF_inv P hfail hq hs hc fuel false w g h
 
 theorem signal_pending_mono (w : World) (g : Nat) (e : HTag) (he : e ∈ w.ev.pending) :
     e ∈ (signal w g).ev.pending :=
   guardSignal_inv (fun w => e ∈ w.ev.pending) (fun w m h => by simpa using h) (fun w g q h => h)
-    (fun w s t pri h => sched_pending_mono w aRes s sigSuccess t pri e h) 8 w g he
+    (fun w s t pri h => sched_pending_mono w aRes s sigSuccess t pri e h)
+    (fun w s t pri h => sched_pending_mono w aCond s sigSuccess t pri e h) 8 w g he
 
 /-- **signalling a guard whose front waiter's demand is satisfied schedules that waiter's resumption** with the
     success code at the current time (and takes it off the waiting list) -/
@@ -208,15 +243,16 @@ theorem signal_grants_front (w : World) (g : Nat) (gd : Guard) (hg : w.guards[g]
     (q' : HH) (x : Option HTag) (hdeq : HashHeap.dequeue guard_queue_check gd.q = .ok (q', x)) :
     ∃ e ∈ (signal w g).ev.pending, e.item.a = aRes ∧ e.item.b = t.key - 1 + 1 ∧ e.item.c = encSig sigSuccess ∧
       e.d = w.now ∧ e.i = (w.proc (t.key - 1)).prio := by
-  unfold signal guardSignal
-  simp only [hg, hne, if_false, hpeek, hdem, if_true, hdeq]
+  unfold signal guardSignal guardSignalF
+  simp only [hg, hne, if_false, hpeek, hdem, if_true, hdeq, Bool.false_and, Bool.false_eq_true]
   have hs := sched_ok (setGuardQ w g q') aRes (t.key - 1 + 1) sigSuccess (setGuardQ w g q').now
     ((setGuardQ w g q').proc (t.key - 1)).prio (Int.le_refl _)
   refine ⟨{ key := (setGuardQ w g q').ev.counter + 1, item := ⟨aRes, t.key - 1 + 1, encSig sigSuccess, 0⟩,
             d := (setGuardQ w g q').now, i := ((setGuardQ w g q').proc (t.key - 1)).prio }, ?_, rfl, rfl, rfl, rfl, ?_⟩
   · apply foldl_inv (fun w' => _ ∈ w'.ev.pending) _
-      (fun w' o hw' => guardSignal_inv (fun w => _ ∈ w.ev.pending) (fun w m h => by simpa using h) (fun w g q h => h)
-        (fun w s t pri h => sched_pending_mono w aRes s sigSuccess t pri _ h) 7 w' o hw')
+      (fun w' o hw' => guardSignalF_inv (fun w => _ ∈ w.ev.pending) (fun w m h => by simpa using h) (fun w g q h => h)
+        (fun w s t pri h => sched_pending_mono w aRes s sigSuccess t pri _ h)
+        (fun w s t pri h => sched_pending_mono w aCond s sigSuccess t pri _ h) 7 true w' o hw')
     rw [hs.2.1]
     exact List.mem_cons_self
   · simp
